@@ -115,6 +115,8 @@ AllSlots == (InfoKindNames \ {"end"}) \cup {"custom"}
 SlotArgs(slot, seed) ==
   IF slot \in SizedInfoKinds THEN SizedArgs(slot, seed)
   ELSE IF slot = "efi_bs" THEN <<>>
+  \* (the EFI map supplied to the builder is a valid one - two descriptors of its stride - so that reading it back iterates)
+  ELSE IF slot = "efi_mmap" THEN DstArgs(slot, seed, 2 * (40 + 8 * (seed % 2)))
   ELSE DstArgs(slot, seed, IF slot \in {"mmap", "framebuffer"} THEN 2 + (seed % 2) ELSE 3 + seed)
 BSet(slot, seed) == [op |-> "b_set", slot |-> slot] @@ SlotArgs(slot, seed)
 RECURSIVE SeqsOfLen(_, _)
